@@ -5,6 +5,7 @@ import SodiumModel.Driver.C15
 import SodiumModel.Driver.C03
 import SodiumModel.Driver.C04
 import SodiumModel.Driver.C09
+import SodiumModel.Driver.C01
 open Sodium.Driver
 
 def handlers : List (String → List String → Option String) := [
@@ -12,7 +13,8 @@ def handlers : List (String → List String → Option String) := [
   Sodium.Driver.C16.handle,
   Sodium.Driver.C15.handle,
   Sodium.Driver.C03.handle,
-  Sodium.Driver.C04.handle
+  Sodium.Driver.C04.handle,
+  Sodium.Driver.C01.handle
 ]
 
 /-- state carried between op lines (stateful families only) -/
